@@ -1018,6 +1018,11 @@ func execLine(line string) string {
 	if strings.HasPrefix(line, "C10 par ") {
 		return execPar(line)
 	}
+	if f := strings.Fields(line); len(f) > 2 && f[1] == "dust" {
+		return execDust(f[2:])
+	} else if len(f) > 2 && f[1] == "vsize" {
+		return execVsize(f[2:])
+	}
 	r, err := parseLine(line)
 	if err != nil {
 		return "bad-op"
@@ -1043,6 +1048,9 @@ func execRecord(line string) (string, string) {
 	}
 	if strings.HasPrefix(line, "C10 par ") {
 		return line, execPar(line)
+	}
+	if f := strings.Fields(line); len(f) > 2 && (f[1] == "dust" || f[1] == "vsize") {
+		return line, execLine(line)
 	}
 	r, err := parseLine(line)
 	if err != nil {
